@@ -1,7 +1,7 @@
 #!/bin/bash
 # Run every check of MANIFEST.json (tier in $1, default quick) and validate the evidence files.
 TIER=${1:-quick}
-cd /verif
+cd "$(dirname "$(readlink -f "$0")")/.."
 fail=0
 for i in $(seq -w 1 20); do
   id=C$i
@@ -15,7 +15,7 @@ python3-vt - <<'PY'
 import json, jsonschema, glob
 sch=json.load(open('/root/.vp/EVIDENCE.schema.json'))
 bad=0
-for f in sorted(glob.glob('/verif/evidence/C*.json')):
+for f in sorted(glob.glob('evidence/C*.json')):
     try:
         jsonschema.validate(json.load(open(f)), sch)
     except Exception as e:
